@@ -17,6 +17,7 @@ import (
 	"strings"
 	"sync"
 	"testing"
+	"time"
 
 	"pgregory.net/rapid"
 )
@@ -388,6 +389,28 @@ func Fuzz[T any](f *testing.F, s Spec[T]) {
 			rt.Fatalf("VERIF-FAIL property=%s rule=%s replay=%s :: %s", s.ID, v.Rule, p, v.Msg)
 		}
 	}))
+}
+
+// ObservedAfter returns a channel that is closed once d of time has been OBSERVED by a goroutine of this process that
+// sleeps one millisecond at a time, and a function that abandons the wait. Stall windows ("nothing happened although the
+// harness waited") are measured this way rather than with a wall-clock timer: a freeze of the whole process, or a
+// machine too loaded to schedule it, stretches the wait instead of ending it, so slowness cannot look like a stall.
+func ObservedAfter(d time.Duration) (<-chan struct{}, func()) {
+	ch := make(chan struct{})
+	stop := make(chan struct{})
+	go func() {
+		for ticks := 0; time.Duration(ticks)*time.Millisecond < d; ticks++ {
+			select {
+			case <-stop:
+				return
+			default:
+			}
+			time.Sleep(time.Millisecond)
+		}
+		close(ch)
+	}()
+	var once sync.Once
+	return ch, func() { once.Do(func() { close(stop) }) }
 }
 
 func replayOne[T any](t *testing.T, s Spec[T], path string, strictDecode bool) {
